@@ -267,3 +267,37 @@ Proof.
   destruct (check_expr_bounds_sound env rho _ _ _ _ _ 0 ve d Henv H eq_refl E eq_refl) as [A B].
   cbn in A, B. split; [apply Z.div_small | apply Z.mod_small]; lia.
 Qed.
+
+(* ------------------------------------------------------------------ the hypotheses above are satisfiable *)
+Example env_sound_example :
+  env_sound [[(mksym 2 2, (Some 0, Some 7))]] (fun _ => 5).
+Proof.
+  intros x l h. cbn. destruct (sym_eqb _ x); intros H; try discriminate. injection H as <- <-.
+  unfold in_itv. lia.
+Qed.
+
+Example constant_bound_nonvacuous :
+  constant_bound (AExpr (IAdd (IVar (mksym 2 2)) (IConst 1))) [[(mksym 2 2, (Some 0, Some 7))]]
+  = Ok (Some 1, Some 8)
+  /\ aeval (fun _ => 5) (AExpr (IAdd (IVar (mksym 2 2)) (IConst 1))) = Some 6.
+Proof. split; vm_compute; reflexivity. Qed.
+
+Example check_expr_bounds_nonvacuous :
+  check_expr_bounds [[(mksym 2 2, (Some 0, Some 7))]]
+    (AInt 0) CLeq (AExpr (IMod (IVar (mksym 2 2)) (IConst 4))) CLt (AInt 4) = Ok true.
+Proof. vm_compute. reflexivity. Qed.
+
+Example compiler_c_division_nonvacuous :
+  check_expr_bound [[(mksym 2 2, (Some 0, Some 7))]]
+    (AInt 0) CLeq (AExpr (IDiv (IVar (mksym 2 2)) (IConst 2))) = Ok true.
+Proof. vm_compute. reflexivity. Qed.
+
+Example simplify_div_mod_nonvacuous :
+  check_expr_bounds [[(mksym 2 2, (Some 0, Some 7))]]
+    (AInt 0) CLeq (AExpr (IVar (mksym 2 2))) CLt (AInt 8) = Ok true.
+Proof. vm_compute. reflexivity. Qed.
+
+Example scope_exit_nonvacuous :
+  env_lookup (exit_scope (env_set (enter_scope [[(mksym 2 2, (Some 0, Some 7))]]) (mksym 3 3) (None, None)))
+    (mksym 2 2) = Some (Some 0, Some 7).
+Proof. vm_compute. reflexivity. Qed.
